@@ -820,13 +820,20 @@ func TestC17ThresholdRSAAll(t *testing.T) {
 					continue
 				}
 				for si, s := range subsets {
-					if !d.combineDirect(t, s, sub) {
+					ok := d.combineDirect(t, s, sub)
+					if t.Failed() {
+						return // first (lexicographically smallest) failing subset is enough
+					}
+					if !ok {
 						continue
 					}
 					// rotated order of the same subset
 					if k > 1 {
 						rot := append(append([]int{}, s[(si%(k-1))+1:]...), s[:(si%(k-1))+1]...)
 						d.combineDirect(t, rot, sub)
+						if t.Failed() {
+							return
+						}
 					}
 				}
 			}
